@@ -42,7 +42,8 @@ RULE = ("random fluent programs as in C13 (shared sources, branches) extended wi
         "operations with swapped operands (a-b and b-a, a/b and b/a), order-sensitive reductions over the same nodes joined / selected "
         "in a different order, stack/concatenate on size-1 dimensions, transform with an identity function and with functions that "
         "look up previously built actions (other than the receiver, lacking the join dimension; one or several parameters). Every "
-        "program is built twice in the check process and twice in a fresh interpreter. "
+        "program is built twice in the check process; the witnesses and a sample (40 quick / 600 thorough) are also built twice in "
+        "fresh interpreters (pristine module state, different string-hash seed). "
         "non-trivial = program with >= 2 non-source statements; distinct by content hash")
 ASSUMPTIONS = [
     "sha256 is collision free on the rendered strings (hypothesis `Function.Injective H` of c14_injective_partial)",
@@ -601,7 +602,8 @@ def correspond(ctx):
     # fresh interpreters build slices of the programs (twice each) while this process runs its own oracle;
     # the first program of a slice meets the pristine module state, so small programs go first
     nfresh = ctx.budget(3, 8)
-    sample = progs if ctx.quick else progs[:len(_witnesses())] + ctx.rng.sample(progs[len(_witnesses()):], min(len(progs) - len(_witnesses()), 600))
+    nw = len(_witnesses())
+    sample = progs[:nw] + ctx.rng.sample(progs[nw:], min(len(progs) - nw, ctx.budget(40, 600)))
     slices = [sorted(sample[i::nfresh], key=lambda q: len(q["stmts"])) for i in range(nfresh)]
     slices[0] = [progs[0]] + [q for q in slices[0] if q is not progs[0]]
     handles = []
